@@ -60,8 +60,23 @@ inline void FillDraco(const Geo &g, draco::PointCloud *pc, draco::Mesh *mesh) {
       mesh->AddFace(face);
     }
   }
+  // Construction history (meshes, one geometry in three): before the last attribute is added, a scratch per-vertex
+  // attribute is added, tagged MESH_VERTEX_ATTRIBUTE and deleted again; attributes whose element type is the default
+  // (per corner) are then added without an explicit SetAttributeElementType call, as file loaders do. The resulting
+  // mesh must be the same as one built directly.
+  const bool with_history = mesh && !g.atts.empty() && (g.npoints + g.faces.size() * 7 + g.atts.size() * 13) % 3 == 0;
   for (size_t a = 0; a < g.atts.size(); ++a) {
     const Attr &at = g.atts[a];
+    if (with_history && a + 1 == g.atts.size()) {
+      GeometryAttribute sa;
+      sa.Init(GeometryAttribute::GENERIC, nullptr, 1, draco::DT_UINT8, false, 1, 0);
+      std::unique_ptr<draco::PointAttribute> sp(new draco::PointAttribute(sa));
+      sp->SetIdentityMapping();
+      sp->Reset(g.npoints);
+      const int sid = pc->AddAttribute(std::move(sp));
+      mesh->SetAttributeElementType(sid, draco::MESH_VERTEX_ATTRIBUTE);
+      mesh->DeleteAttribute(sid);
+    }
     GeometryAttribute ga;
     ga.Init(at.type, nullptr, at.nc, at.dt, at.normalized, at.stride(), 0);
     const bool identity = at.point_to_val.empty();
@@ -73,7 +88,7 @@ inline void FillDraco(const Geo &g, draco::PointCloud *pc, draco::Mesh *mesh) {
     pa->set_unique_id(at.unique_id);
     const int id = pc->AddAttribute(std::move(pa));
     pc->attribute(id)->set_unique_id(at.unique_id);
-    if (mesh) mesh->SetAttributeElementType(id, static_cast<draco::MeshAttributeElementType>(at.elem));
+    if (mesh && !(with_history && at.elem == draco::MESH_CORNER_ATTRIBUTE)) mesh->SetAttributeElementType(id, static_cast<draco::MeshAttributeElementType>(at.elem));
   }
 }
 inline std::unique_ptr<draco::Mesh> ToMesh(const Geo &g) {
